@@ -59,6 +59,12 @@ def gen(rs, tier):
                                     "timestamps": [e + step * j for j in range(k)]}
             d["pilotSignal"] = {"pilot": [32] * k, "timestamps": [e + step * j for j in range(k)]}
         docs.append(d)
+    if len(docs) >= 2 and r.random() < 0.3:
+        # two documents of different time zones that carry the very same instant (hence the same RFC-1123 string)
+        i_, j_ = r.sample(range(len(docs)), 2)
+        docs[j_]["connectionTime"] = docs[i_]["connectionTime"]
+        docs[j_]["disconnectTime"] = max(docs[j_]["disconnectTime"], docs[j_]["connectionTime"] + 60)
+        docs[j_]["timezone"] = r.choice([z for z in ZONES if z != docs[i_]["timezone"]])
     npages = r.choice([0, 1, 2, 3, 5, 8])
     pages = [r.choice([0, 0, 1, 2, 3, 5, 25, 100]) for _ in range(npages)]
     if r.random() < 0.2:
